@@ -58,6 +58,8 @@ def run_layout(job):
     b = {k: v[0] for k, v in before.items()}
     a = {k: v[0] for k, v in after.items()}
     evs = layouts.file_events(lay, b, a, exit_code, new)
+    for e_ in evs:
+        e_["prop"] = "C03"          # (the trace spec then also asks C03's own question of a file whose rewrite went wrong in C04's terms)
     # the config file itself: current_version must equal the announced version (black box, no spec operator needed)
     cfg_after = a.get(lay.cfg_format, b"").decode("utf-8", "replace")
     facts = dict(seed=seed, vp=lay.vp, old=lay.old_version, new=new, exit=exit_code, exc=exc, flags=lay.flags, locale_c=locale_c,
